@@ -60,28 +60,39 @@ def optionalIsTyped (p : Parameter) : Bool := !p.isOptional || p.type.isSome
 
 def paramsKeys (ps : List Parameter) : List String := ps.flatMap paramKeys
 
-/-- a type whose rendering is the empty string: a union without members (possibly under `Final`) -/
+mutual
+/-- a type whose rendering is the empty string: a union without members, or all of whose members
+    render empty (possibly under `Final`) -/
 def rendersEmpty : AType → Bool
-  | .union [] => true
+  | .union ts => allRenderEmpty ts
   | .final t => rendersEmpty t
   | _ => false
+def allRenderEmpty : List AType → Bool
+  | [] => true
+  | t :: ts => rendersEmpty t && allRenderEmpty ts
+end
 
 def isNoneResult (r : Result) : Bool :=
   match r.type with
   | some (.named _ q) => q == "builtins.None"
   | _ => false
 
-/-- the results that are shown: those before the first `None` result (if there is one, the whole
-    list is suppressed) that have a type -/
-def resultsBeforeNone : List Result → List Result
-  | [] => []
-  | r :: rs => if isNoneResult r then [] else r :: resultsBeforeNone rs
+/-- a function whose only result is `None` (the annotation `-> None`) has no result list -/
+def onlyNoneResult (rs : List Result) : Bool :=
+  match rs with
+  | [r] => isNoneResult r
+  | _ => false
+
+/-- the results that are shown: those that have a type which does not render empty -/
+def shownResults (rs : List Result) : List Result :=
+  if onlyNoneResult rs then []
+  else rs.filter fun r => match r.type with | some t => !rendersEmpty t | none => false
 
 def resultKeys (rs : List Result) : List String :=
-  (resultsBeforeNone rs).flatMap (fun r => match r.type with | some t => typeKeys t | none => [])
-  ++ (if rs.any isNoneResult then []
-      else if rs.all (fun r => match r.type with | none => true | some t => rendersEmpty t) then ["result without type"]
-      else [])
+  if onlyNoneResult rs then []
+  else
+    rs.flatMap (fun r => match r.type with | some t => typeKeys t | none => [])
+    ++ (if (shownResults rs).isEmpty then ["result without type"] else [])
 
 /-- markers a function deserves; `shownTypeVars` = the type variables whose bound is rendered
     (all of them for a module-level function) -/
